@@ -344,6 +344,8 @@ def _type(eng, args, kwargs, node):
         return v.info
     if isinstance(v, Obj):
         return _STUB_TYPES.setdefault(v.cls, TypeObj('class:' + v.cls, None, ('stub:' + v.cls,)))
+    if type(v).__name__ in ('SymSeq', 'SymList', 'GenResult'):
+        return b['list']           # unbounded sequences stand for python lists
     raise Unsupported('type() of %s' % pt)
 
 
